@@ -555,7 +555,7 @@ func translateFW(p *pkgInfo) string {
 		}
 	}
 	var sb strings.Builder
-	sb.WriteString("import Gws.Trans.FWPrelude\n/-! GENERATED by tools/gotrans (buffer-list dialect, tools/gotrans/fw.go) from /repo/writefile.go on every check run. Do not edit.\n\nThe methods of `flateWriter`, statement by statement, in the `Option` monad (`none` = run-time panic); a `*bytes.Buffer` that is an\nelement of `c.buffers` is the index of that element, see Gws/Trans/FWPrelude.lean. -/\n\nset_option linter.unusedVariables false\n\nnamespace TransFW\n\n")
+	sb.WriteString("import Gws.Trans.FWPrelude\nimport Gws.Generated.Trans\n/-! GENERATED by tools/gotrans (buffer-list dialect, tools/gotrans/fw.go) from /repo/writefile.go on every check run. Do not edit.\n\nThe methods of `flateWriter`, statement by statement, in the `Option` monad (`none` = run-time panic); a `*bytes.Buffer` that is an\nelement of `c.buffers` is the index of that element, see Gws/Trans/FWPrelude.lean. -/\n\nset_option linter.unusedVariables false\n\nnamespace TransFW\n\n")
 	for _, name := range fwFuncs {
 		fd := p.funcs[name]
 		q.decl = fd
@@ -616,6 +616,7 @@ func translateFW(p *pkgInfo) string {
 		}
 		fmt.Fprintf(&sb, "/-- gws.%s (writefile.go:%d-%d) -/\ndef %s %s : %s := do\n%s\n\n", name, a.Line, b.Line, lean, head, rt, indent(strings.Join(body, "\n")))
 	}
+	sb.WriteString(translateRL(p))
 	sb.WriteString("end TransFW\n")
 	return sb.String()
 }
